@@ -63,7 +63,11 @@ impl<'a> PartialEqSpecImpl<&'a Str> for Str {
     open spec fn obeys_eq_spec() -> bool { true }
     open spec fn eq_spec(&self, other: &&'a Str) -> bool { self@ == (*other)@ }
 }
+/// lexicographic order on strings (`Ord for String`): uninterpreted total order
+pub uninterp spec fn str_cmp(a: Seq<char>, b: Seq<char>) -> core::cmp::Ordering;
 impl Str {
+    #[verifier::external_body]
+    pub fn cmp(&self, o: &Str) -> (r: core::cmp::Ordering) ensures r == str_cmp(self@, o@) { unimplemented!() }
     /// string literal
     #[verifier::external_body]
     pub fn lit(s: &'static str) -> (r: Str) ensures r@ == s@ { unimplemented!() }
@@ -151,6 +155,18 @@ macro_rules! std_error_from {
 } // verus!
 std_error_from!(OverflowError, DivideByZeroError, CheckedMultiplyRatioError, CheckedMultiplyFractionError, CheckedFromRatioError, ConversionOverflowError, Decimal256RangeExceeded, DecimalRangeExceeded);
 verus! {
+// ---------------------------------------------------------------- unwrap (R11: `.unwrap()` -> `.unwrap_()`)
+/// `Option::unwrap` / `Result::unwrap` panic (abort the transaction) on None / Err: partial-correctness contract
+pub trait UnwrapExt<T>: Sized { fn unwrap_(self) -> T; }
+impl<T> UnwrapExt<T> for Option<T> {
+    #[verifier::external_body]
+    fn unwrap_(self) -> (r: T) ensures self == Some(r) { unimplemented!() }
+}
+impl<T, E> UnwrapExt<T> for Result<T, E> {
+    #[verifier::external_body]
+    fn unwrap_(self) -> (r: T) ensures self is Ok, self->Ok_0 == r { unimplemented!() }
+}
+
 // ---------------------------------------------------------------- to_string (R4: `.to_string()` -> `.to_str_()`)
 pub trait ToStr_ { fn to_str_(&self) -> Str; }
 impl ToStr_ for Str { fn to_str_(&self) -> (r: Str) ensures r == *self { self.clone() } }
@@ -196,3 +212,8 @@ impl Timestamp {
 }
 
 } // verus!
+
+// `Result::unwrap` needs `E: Debug` (text never inspected)
+macro_rules! debug_impl { ($($t:ty),*) => { $( impl core::fmt::Debug for $t { fn fmt(&self, _f: &mut core::fmt::Formatter<'_>) -> core::fmt::Result { Ok(()) } } )* } }
+debug_impl!(StdError, OverflowError, DivideByZeroError, CheckedMultiplyRatioError, CheckedMultiplyFractionError, CheckedFromRatioError,
+    ConversionOverflowError, DivisionError, Decimal256RangeExceeded, DecimalRangeExceeded, Instantiate2AddressError, PaymentError, OwnershipError);
